@@ -7,6 +7,8 @@
 // Monitor D (reconnect_test.go): the security level of an upstream survives the loss of its session.
 // Monitor E (listeners_test.go): compositions of the client's listener list (stdio and socket listeners
 // in every order, applications connecting while the client is still starting).
+// Monitor F (failedtls_test.go): a scripted peer makes the server's TLS handshake fail (TLS endpoints and
+// StartTLS upgrades) and goes on in clear, one step at a time.
 package c04
 
 import (
@@ -31,7 +33,7 @@ import (
 
 // caseDesc is the replayable descriptor of every case of the three monitors.
 type caseDesc struct {
-	Monitor string `json:"monitor"` // "A", "B", "C", "D", "E"
+	Monitor string `json:"monitor"` // "A", "B", "C", "D", "E", "F"
 	Seed    int64  `json:"seed"`
 	// A and C
 	Carrier string `json:"carrier,omitempty"`
@@ -52,6 +54,10 @@ type caseDesc struct {
 	Listeners []string `json:"client_listeners,omitempty"`
 	Eager     bool     `json:"applications_connect_during_startup,omitempty"`
 	Rounds    int      `json:"client_starts,omitempty"`
+	// F: where the server performs the TLS handshake that the scripted peer makes fail (tls-endpoint,
+	// starttls-upgrade; or the control without a failing step) and the form of the failing step
+	Where string `json:"tls_handshake_at,omitempty"`
+	Form  string `json:"failing_step,omitempty"`
 }
 
 func (c *caseDesc) key() string {
@@ -62,6 +68,9 @@ func (c *caseDesc) key() string {
 	k := fmt.Sprintf("%s/%s/%s/%v/%v/%v/%s/%s/%s/%s", c.Monitor, c.Carrier, c.Cert, c.NoCA, c.Require, c.Insecure, c.Transport, s, c.Peer, c.UpSch)
 	if len(c.Listeners) > 0 {
 		k += fmt.Sprintf("/%s/%v/%d", strings.Join(c.Listeners, ","), c.Eager, c.Rounds)
+	}
+	if c.Where != "" {
+		k += "/" + c.Where + "/" + c.Form
 	}
 	return k
 }
@@ -647,6 +656,8 @@ func TestVerifC04(t *testing.T) {
 			runD(rec, &c)
 		case "E":
 			runE(rec, &c)
+		case "F":
+			runF(rec, []*caseDesc{&c})
 		}
 		return
 	}
@@ -683,6 +694,22 @@ func TestVerifC04(t *testing.T) {
 			}
 			if mine(rec, false, idx) {
 				runC(rec, c)
+			}
+			idx++
+		}
+	}
+	if want("F") {
+		for _, g := range fGroups(rec) {
+			if slowF(g) {
+				// one stall window on the unchanged tree (see slowC)
+				if mine(rec, true, dnsIdx) {
+					runF(rec, g)
+				}
+				dnsIdx++
+				continue
+			}
+			if mine(rec, false, idx) {
+				runF(rec, g)
 			}
 			idx++
 		}
